@@ -223,6 +223,15 @@ func (f *SexpField) AlignString(pad []int) string {
 
 func (f *SexpField) SexpString(ps *PrintState) string {
 	hash := (*SexpHash)(f)
+	if ps == nil {
+		ps = NewPrintState()
+	}
+	if ps.GetSeen(hash) {
+		return "{...}"
+	}
+	ps.SetSeen(hash, "SexpField")
+	defer ps.Unsee(hash)
+
 	str := " (" + hash.TypeName + " "
 
 	for i, key := range hash.KeyOrder {
@@ -234,12 +243,12 @@ func (f *SexpField) SexpString(ps *PrintState) string {
 			case *SexpSymbol:
 				str += s.name + ":"
 			default:
-				str += key.SexpString(nil) + ":"
+				str += key.SexpString(ps) + ":"
 			}
 			if i > 0 {
-				str += val.SexpString(nil) + " "
+				str += val.SexpString(ps) + " "
 			} else {
-				str += val.SexpString(nil) + "    "
+				str += val.SexpString(ps) + "    "
 			}
 		} else {
 			panic(err)
